@@ -603,37 +603,42 @@ func (d *Driver) Check(only []Case) int {
 	}
 	wall := time.Since(d.StartedAt).Seconds()
 	cov := map[string]any{
-		"evaluations":           len(res.outcomes),
-		"distinct_nontrivial":   len(sigs),
-		"rule":                  p.Rule,
-		"samples":               samples,
-		"events_observed":       events,
-		"observations":          obs,
-		"cases_by_kind":         byKind,
-		"held":                  nHeld,
-		"inconclusive":          nInc,
-		"inconclusive_cases":    inconc,
-		"known_findings_hit":    nKnown,
-		"race_reports_f1":       raceF1,
-		"race_reports_harness":  raceHarness,
-		"child_crashes":         res.crashes,
-		"child_hangs":           res.hangs,
-		"floor_met":             floorMet,
-		"floor_notes":           floorNotes,
-		"gomaxprocs_parent":     runtime.GOMAXPROCS(0),
-		"verdict_discipline":    "held = no monitor fired on the executions listed; nothing is proved beyond them",
-		"signatures_sample":     sampleKeys(sigs, 12),
+		"evaluations":          len(res.outcomes),
+		"distinct_nontrivial":  len(sigs),
+		"rule":                 p.Rule,
+		"samples":              samples,
+		"events_observed":      events,
+		"observations":         obs,
+		"cases_by_kind":        byKind,
+		"held":                 nHeld,
+		"inconclusive":         nInc,
+		"inconclusive_cases":   inconc,
+		"known_findings_hit":   nKnown,
+		"race_reports_f1":      raceF1,
+		"race_reports_harness": raceHarness,
+		"child_crashes":        res.crashes,
+		"child_hangs":          res.hangs,
+		"floor_met":            floorMet,
+		"floor_notes":          floorNotes,
+		"gomaxprocs_parent":    runtime.GOMAXPROCS(0),
+		"verdict_discipline":   "held = no monitor fired on the executions listed; nothing is proved beyond them",
+		"signatures_sample":    sampleKeys(sigs, 12),
 	}
 	if p.Exhaustive != nil && p.Exhaustive(d.Tier) {
 		cov["exhaustive"] = true
 	}
+	assumptions := p.Assumptions
+	if assumptions == nil {
+		assumptions = []string{}
+	}
+	assumptions = append(assumptions, "the verdict covers only the executions listed under coverage; nothing is proved beyond them")
 	ev := map[string]any{
 		"property_id": p.ID,
 		"tier":        d.Tier,
 		"seed":        d.Seed,
 		"level":       "exploration",
 		"coverage":    cov,
-		"assumptions": p.Assumptions,
+		"assumptions": assumptions,
 		"wall_s":      wall,
 		"violations":  nViol,
 	}
